@@ -145,6 +145,21 @@ def judge(rows_in, res, where=""):
     return vs, n_with
 
 
+_solo_memo = {}
+
+
+def solo_search(rsmi):
+    """Search result (sorted_reactants, mcs_results, issue) of the reaction processed alone, fault-free."""
+    from simworld import runner
+
+    if rsmi not in _solo_memo:
+        r = runner.run_once({"rows": [rsmi], "config": {"n_jobs": 1, "threshold": 0}, "sim": {"sched_seed": 0}, "tap": True})
+        t = (r.get("tap_rows") or [None])[0]
+        m = t.get("mcs") if isinstance(t, dict) else None
+        _solo_memo[rsmi] = {k: m.get(k) for k in ("sorted_reactants", "mcs_results", "issue")} if isinstance(m, dict) else None
+    return _solo_memo[rsmi]
+
+
 def execute(plan):
     from simworld import runner
 
@@ -155,6 +170,21 @@ def execute(plan):
         out["runs"] = 1
         out["summary"].append(common.run_summary(res))
         vs, n_with = judge(rows_in, res)
+        if not res["fired"] and res.get("tap_rows") and res["rows"] is not None and len(res["rows"]) == len(rows_in):
+            # fault-free: the search result attached to a row is the one the reaction gets when searched alone
+            from simworld import oracles
+
+            for inp, t in zip(rows_in, res["tap_rows"]):
+                if not isinstance(t, dict) or not isinstance(t.get("mcs"), dict):
+                    continue
+                solo = solo_search(inp)
+                if solo is None:
+                    continue
+                got = {k: t["mcs"].get(k) for k in ("sorted_reactants", "mcs_results", "issue")}
+                if got != solo:
+                    diff = [k for k in got if got[k] != solo[k]]
+                    vs.append(oracles.V("C10", "search_result_differs_from_solo", ",".join(diff), "%s: in this batch the search result has %r, searched alone %r" % (
+                        inp, {k: got[k] for k in diff}, {k: solo[k] for k in diff})))
         out["violations"] = vs
         out["fired_list"] = res["fired_list"]
         if n_with and len(rows_in) >= 2:
